@@ -124,12 +124,12 @@ def run(ck, m):
             writes = False
             for x in region:
                 t = lb.term(x)
-                if t['k'] == 'call' and 'op_log' in callee(t):
+                if t['k'] == 'call' and 'op_log' in callee(t) and lb.postdominates(x, tb):
                     writes = True
                 # closures created in the arm (ReplicateSnapshot maps over the names)
             for (cbi, csi, ccb) in [(bi, si, P.bodies.get(s['r']['def'])) for bi in region for si, s in enumerate(lb.blocks[bi]['s'])
                                     if s['k'] == 'assign' and s['r']['k'] == 'agg' and s['r'].get('ak') == 'closure']:
-                if ccb is not None and any('op_log' in callee(t2) for _, t2 in ccb.calls()):
+                if ccb is not None and any('op_log' in callee(t2) for _, t2 in ccb.calls()) and lb.postdominates(cbi, tb):
                     writes = True
             if writes:
                 oplog_arms.add(v)
